@@ -30,11 +30,12 @@ class Loop:
 
 class Contract:
   def __init__(s,key,view,cases,modifies=(),returns=None,source_of_post='',loops=None,ghost=None,property_ids=(),trusted=False,
-               sample=None, build=None, note='', bounded=None, standin_inputs=None, refute_pins=None, call_effect=None, native=None, ghost_hooks=None, abstract_lists=(), ghost_init=None, exit_lemmas=()):
+               sample=None, build=None, note='', bounded=None, standin_inputs=None, refute_pins=None, call_effect=None, native=None, ghost_hooks=None, abstract_lists=(), ghost_init=None, exit_lemmas=(), native_post=None, json_args=None):
+    s.native_post=native_post; s.json_args=json_args
     s.key=key; s.file,s.qual=key.split('::'); s.view=view; s.cases=cases; s.modifies=list(modifies)
     s.returns=returns; s.source_of_post=source_of_post; s.loops=loops or {}; s.ghost=ghost or {}
     s.property_ids=tuple(property_ids); s.trusted=trusted; s.sample=sample; s.build=build; s.note=note
-    s.bounded=bounded; s.standin_inputs=standin_inputs; s.refute_pins=refute_pins; s.call_effect=call_effect; s.native=native; s.ghost_hooks=ghost_hooks or {}; s.abstract_lists=tuple(abstract_lists); s.ghost_init=ghost_init; s.exit_lemmas=list(exit_lemmas)
+    s.bounded=bounded; s.standin_inputs=standin_inputs; s.refute_pins=refute_pins; s.call_effect=call_effect; s.native=native; s.ghost_hooks=ghost_hooks or {}; s.abstract_lists=dict(abstract_lists) if isinstance(abstract_lists,dict) else tuple(abstract_lists); s.ghost_init=ghost_init; s.exit_lemmas=list(exit_lemmas)
     s._reg=None
   def module(s,reg): return reg.module(s.file)
   def fn_ast(s,reg): return reg.module(s.file).function(s.qual)
